@@ -539,8 +539,8 @@ class Share(object):
     def __delitem__(self, key):
         """       """
         try:
-            delattr(self._data, key)
-        except AttributeError:
+            self._data.__dict__.__delitem__(key) #odict delitem keeps key order in sync (delattr bypasses it)
+        except KeyError:
             raise KeyError("%s object has no key '%s'" % (self.__class__.__name__, key))
 
     def __getitem__(self, key):
